@@ -1,6 +1,7 @@
-"""C04 - private declarations never leak into stubs; the API JSON marks exactly those as non-public (spec/Package.tla, universe U1)."""
-from checks.topocheck import run_topology
+"""C04 - private declarations never leak into stubs; the API JSON marks exactly those as non-public (spec/Package.tla U1, spec/Package2.tla U2)."""
+from checks.topocheck import run_topology, run_topology2
 
 
 def main(v):
     run_topology(v, ("C04",))
+    run_topology2(v, ("C04",))
